@@ -12,9 +12,11 @@ from .path import is_quantified
 UNSAT, SAT, UNKNOWN = "unsat", "sat", "unknown"
 
 
-def _check(formulas, timeout_ms, logic=None):
+def _check(formulas, timeout_ms, logic=None, rlimit=None):
     s = z3.Solver() if logic is None else z3.SolverFor(logic)
     s.set("timeout", int(timeout_ms))
+    if rlimit:
+        s.set("rlimit", int(rlimit))
     for f in formulas:
         s.add(f)
     r = s.check()
@@ -123,14 +125,15 @@ def discharge(ob, timeout_s=10, second_solver=False):
     """sets ob.status / backend / time / model"""
     t0 = time.time()
     if ob.expect_sat:
+        # vacuity guard: only a *refuted* precondition (unsat) is a problem; unknown is accepted
         qf = [h for h in ob.hyps if not is_quantified(h)]
-        st, model, _ = _check(ob.hyps, 1500)
-        if st == UNKNOWN:
-            st2, model, _ = _check(qf, timeout_s * 1000)
-            st = SAT if st2 == SAT else st2
-            ob.backend = "z3-5.1(py) on quantifier-free part"
-        else:
-            ob.backend = "z3-5.1(py)"
+        st, model, _ = _check(qf, 1500, rlimit=3000000)
+        ob.backend = "z3-5.1(py) on the quantifier-free part"
+        if st == SAT and len(qf) < len(ob.hyps):
+            st_full, _m, _ = _check(ob.hyps, 1500, rlimit=3000000)
+            if st_full == UNSAT:
+                st = UNSAT
+                ob.backend = "z3-5.1(py)"
         ob.status = st
         ob.model = model
         ob.time = time.time() - t0
